@@ -63,6 +63,31 @@ VH_AREA(alg) {
         for (size_t i = 0; i < POOL; i++) dpool.push_back(std::make_unique<DetectorErrorModel>(small_dem(rng)));
         size_t steps = 6 + rng.below(a.thorough() ? 25 : 12);
         std::string hist;
+        {
+            // self-addition whose seam fuses: the last instruction is also the first one appended
+            Circuit c = small_circuit(rng, st, 4);
+            if (!c.operations.empty() && c.operations[0].gate_type != GateType::REPEAT) {
+                const auto &first = c.operations[0];
+                std::vector<GateTarget> ts(first.targets.begin(), first.targets.end());
+                std::vector<double> args(first.args.begin(), first.args.end());
+                std::string tag(first.tag);
+                GateType g = first.gate_type;
+                try {
+                    c.safe_append(CircuitInstruction(g, args, ts, tag), true);   // same gate, tag and arguments at the end, not fused
+                    std::string w = wire_circuit(c);
+                    if (rng.chance(0.5)) {
+                        c += c;
+                        out_q("alg add " + w + " " + w + " " + wire_circuit(c), "ok");
+                        st.hit("op.iadd.self.fusable_seam");
+                    } else {
+                        Circuit r = c + c;
+                        out_q("alg add " + w + " " + w + " " + wire_circuit(r), "ok");
+                        st.hit("op.add.self.fusable_seam");
+                    }
+                } catch (const std::invalid_argument &) {
+                }
+            }
+        }
         for (size_t s = 0; s < steps; s++) {
             int op = (int)rng.below(16);
             size_t i = rng.below(POOL), j = rng.below(POOL);
